@@ -17,7 +17,7 @@ for p in props:
         "quick_cmd": f"bin/vcheck {p['id']} --tier quick",
         "thorough_cmd": f"bin/vcheck {p['id']} --tier thorough",
         "evidence_file": f"/verif/evidence/{p['id']}.json",
-        "replay_cmd_template": f"bin/gosym replay {p['id']} {{path}}",
+        "replay_cmd_template": f"bin/vreplay {p['id']} {{path}}",
         "engine": "gosym",
         "level_claimed": {"category": "model_checking", "text": c['text'], "design_ref": c.get('design_ref', f"DESIGN.md section 7, {p['id']}")},
         "level_note": c['note'],
